@@ -166,7 +166,7 @@ Definition to_canonical (a : ipaddr) : ipaddr :=
   end.
 
 Definition v4_entries (subnets : list subnet) : list entry :=
-  flat_map (fun s => match s_addr s with V4 a => [(shl 128 a V4_SHIFT, s_mask s)] | V6 _ => [] end) subnets.
+  flat_map (fun s => match s_addr s with V4 a => [(shl 128 a V4_SHIFT_NEW, s_mask s)] | V6 _ => [] end) subnets.
 Definition v6_entries (subnets : list subnet) : list entry :=
   flat_map (fun s => match s_addr s with V6 a => [(a, s_mask s)] | V4 _ => [] end) subnets.
 
